@@ -1,10 +1,10 @@
 CONSTANTS
-  Dev = {"SplitAllSpaces"}
+  Dev = {"UnstableSameNameOrder"}
   Segmented = FALSE
-  Families = {"api", "cl", "chunk", "bigchunk"}
+  Families = {"api"}
   CodeMode = "few"
-  HdrK = 2
-  MaxHdrs = 1
+  HdrK = 3
+  MaxHdrs = 2
   MaxBody = 2
   BodyMode = "len"
   StyleMode = "one"
